@@ -1,0 +1,26 @@
+//go:build verif
+
+package parse
+
+// Verification hook. This file is compiled only with -tags verif and only
+// adds code: it exposes how the body of a change is split into its '-' and
+// '+' versions.
+
+import (
+	"github.com/uber-go/gopatch/internal/parse/section"
+)
+
+// VerifVersion is one side of the body of a change: its text and, for
+// each of its lines, the offset in that text and the position in the patch
+// file.
+type VerifVersion struct {
+	Contents []byte
+	Lines    []section.LinePos
+}
+
+// VerifSplitPatch exposes splitPatch.
+func VerifSplitPatch(patch section.Section) (minus, plus VerifVersion) {
+	before, after := splitPatch(patch)
+	return VerifVersion{Contents: before.Contents, Lines: before.Lines},
+		VerifVersion{Contents: after.Contents, Lines: after.Lines}
+}
